@@ -55,6 +55,7 @@ ORDER = 40
 CORPUS = os.path.join(checklib.VERIF, "corpus", "core_trace")
 NOOP = b"\x01"
 FOLLOWER, CANDIDATE, LEADER = 0, 1, 2
+LOOP_BUDGET = 3000
 
 
 class Stop(Exception):
@@ -105,6 +106,22 @@ class Tracer(object):
             self.effects.append(("apply", obj._nid))
             return base_apply(obj, command)
         self.sim.Obj._SyncObj__doApplyCommand = do_apply
+        # loop budget: the simulator's clock stands still inside a handler, but the send loop of
+        # __sendAppendEntries and the queue drain are only bounded by wall-clock time; after LOOP_BUDGET
+        # clock reads inside ONE event the executing node's clock moves on by 0.25 s (= the handler took
+        # that long), which is what ends such a loop on a real machine.
+        orig_mono = self.sim.so.monotonicTime
+        self.mono_calls = 0
+
+        def mono():
+            self.mono_calls += 1
+            if self.mono_calls > LOOP_BUDGET and self.sim.cur is not None:
+                self.mono_calls = 0
+                self.sim.now[self.sim.cur] += 0.25
+                self.cov["real:loop-budget-exhausted"] += 1
+            return orig_mono()
+        self.sim.so.monotonicTime = mono
+        self.sim.tr.monotonicTime = mono
         orig_send = self.sim._send
 
         def send(a, b, msg, orig_send=orig_send):
@@ -391,6 +408,7 @@ class Tracer(object):
         sim = self.sim
         kind = ev[0]
         self.effects[:] = []
+        self.mono_calls = 0
         if kind == "deliver":
             q = sim.chan[(ev[1], ev[2])]
             if not q:
